@@ -48,6 +48,9 @@ func e2eOptions(run *evid.Run, rng *rand.Rand, rounds int) int {
 	n := 0
 	vals := func(nonASCII bool) string {
 		pool := []string{"a", "B", "7", " ", "+", "=", "\\", "{", "}", "x", "~", "!", "\"", "<", ">", "@", ";", ",", ".", "%"}
+		// values that look like their own encoding: a '+' followed by two hex digits is
+		// still three characters of the value
+		pool = append(pool, "+4A", "+2B", "+20", "+3D")
 		if nonASCII {
 			pool = append(pool, "é", "ß", "€", "日", "😀", "\u0080", "߿", "￿")
 		}
